@@ -28,12 +28,16 @@ example : blockdims1 10 4 = .ok [4, 4, 2] := by rfl
 example : blockdims1 0 4 = .ok [0] := by rfl
 example : blockdims1 5 0 = .error .zeroDiv := by rfl
 
-/-- **normalize_sum_nonneg** (full, no hypothesis on the spec at all — malformed ones included):
-    whenever `normalize_chunks` returns, it returns one non-empty tuple per dimension, without a
-    negative size, adding up to the shape.  (True of the code since `fix: normalize_chunks rejects
-    negative chunk sizes`; before it `normalize_chunks(-2, (5,)) = ((-1,),)`.) -/
+/-- what the harness checks of `auto_chunks`' result on every call: one entry per dimension, no negative size -/
+def AutoOK (shape : List Nat) (autoRes : Option (List Spec)) : Prop :=
+  ∀ a, autoRes = some a → a.length = shape.length ∧ ∀ c ∈ a, c.isNeg = false
+
+/-- **normalize_sum_nonneg** (no hypothesis on the user's spec at all — malformed ones included): whenever
+    `normalize_chunks` returns, it returns one non-empty tuple per dimension, without a negative size, adding
+    up to the shape.  (True of the code since `fix: normalize_chunks rejects negative chunk sizes`; before it
+    `normalize_chunks(-2, (5,)) = ((-1,),)`.  The only hypothesis concerns `auto_chunks`' own output.) -/
 theorem normalize_sum_nonneg {top shape limit autoRes r} (h : normalize top shape limit autoRes = .ok r)
-    (hne : shape ≠ []) (hauto : ∀ a, autoRes = some a → a.length = shape.length) :
+    (hne : shape ≠ []) (hauto : AutoOK shape autoRes) :
     AllDims DimOK r shape := by
   unfold normalize at h
   cases h1 : preNormalize top shape limit with
@@ -44,8 +48,8 @@ theorem normalize_sum_nonneg {top shape limit autoRes r} (h : normalize top shap
     split at h
     · cases autoRes with
       | none => simp at h
-      | some a => exact finalize_dims h (hauto a rfl) hne
-    · exact finalize_dims h hl hne
+      | some a => exact finalize_dims h (hauto a rfl).1 hne (hauto a rfl).2
+    · exact finalize_dims h hl hne (preNormalize_nonneg h1)
 
 /-- **normalize_sum_pos** (the statement's first sentence): every returned dimension consists of
     positive chunk sizes, or is exactly `(0,)`, and adds up to the shape — for int / -1 / None /
@@ -54,8 +58,8 @@ theorem normalize_sum_nonneg {top shape limit autoRes r} (h : normalize top shap
     are themselves positive-or-`(0,)` (they are passed through verbatim; dask allows zero-length
     chunks inside explicit tuples). -/
 theorem normalize_sum_pos {top shape limit autoRes r} (h : normalize top shape limit autoRes = .ok r)
-    (hne : shape ≠ [])
-    (hauto : ∀ a, autoRes = some a → a.length = shape.length ∧ TupGood a)
+    (hne : shape ≠ []) (hauto : AutoOK shape autoRes)
+    (hautot : ∀ a, autoRes = some a → TupGood a)
     (htup : TupGood (expandTop top shape.length)) (hflat : FlatGood (expandTop top shape.length)) :
     AllDims DimValid r shape := by
   unfold normalize at h
@@ -68,16 +72,16 @@ theorem normalize_sum_pos {top shape limit autoRes r} (h : normalize top shape l
     split at h
     · cases autoRes with
       | none => simp at h
-      | some a => exact finalize_valid h (hauto a rfl).1 hne (hauto a rfl).2
-    · exact finalize_valid h hl hne hg
+      | some a => exact finalize_valid h (hauto a rfl).1 hne (hauto a rfl).2 (hautot a rfl)
+    · exact finalize_valid h hl hne (preNormalize_nonneg h1) hg
 
 /-- pointwise reading of `AllDims`: the result has one entry per dimension and entry `i` is valid for `shape[i]` -/
 theorem normalize_sum_pos_get {top shape limit autoRes r} (h : normalize top shape limit autoRes = .ok r)
-    (hne : shape ≠ [])
-    (hauto : ∀ a, autoRes = some a → a.length = shape.length ∧ TupGood a)
+    (hne : shape ≠ []) (hauto : AutoOK shape autoRes)
+    (hautot : ∀ a, autoRes = some a → TupGood a)
     (htup : TupGood (expandTop top shape.length)) (hflat : FlatGood (expandTop top shape.length)) :
     r.length = shape.length ∧ ∀ i (h1 : i < r.length) (h2 : i < shape.length), DimValid r[i] shape[i] :=
-  let H := normalize_sum_pos h hne hauto htup hflat
+  let H := normalize_sum_pos h hne hauto hautot htup hflat
   ⟨H.length, H.get⟩
 
 /-! non-vacuity: the documented examples, through the model -/
@@ -88,7 +92,8 @@ example : normalize (.dict [(0, .int 2), (1, .int 3)]) [6, 6] none none = .ok [[
 example : normalize (.seq []) [0, 0] none none = .ok [[0], [0]] := by rfl
 example : normalize (.scalar .auto) [20] (some 5) (some [.int 5]) = .ok [[5, 5, 5, 5]] := by rfl
 example : normalize (.seq [.bytes 16, .bytes 64]) [5, 5] none none = .error .value := by rfl
-/-- witnesses of the two repaired defects: negative sizes are rejected, zero block size divides by zero -/
+/-- witnesses of the repaired defects: negative sizes are rejected (before `auto_chunks` is consulted), zero block size divides by zero -/
+example : normalize (.seq [.auto, .int (-2)]) [5, 5] (some 8) none = .error .value := by rfl
 example : normalize (.scalar (.int (-2))) [5] none none = .error .value := by rfl
 example : normalize (.seq [.tup [7, -2]]) [5] none none = .error .value := by rfl
 example : normalize (.scalar (.int 0)) [5] none none = .error .zeroDiv := by rfl
